@@ -593,7 +593,8 @@ def oracle(case, obs):
         return None
     if delivered != received:
         return Failure(case, f"body delivered {delivered[:40]!r} ({len(delivered)} bytes) != body received "
-                       f"{received[:40]!r} ({len(received)} bytes)", "body-" + desc["framing"])
+                       f"{received[:40]!r} ({len(received)} bytes)",
+                       "chunk-size-line-limit" if case.get("long_line") else "body-" + desc["framing"])
     ended = lose or complete
     if not ended:
         if closed:
